@@ -266,7 +266,7 @@ def _loop_over(loop, base_path):
             desc = bool(isinstance(rv, ast.Constant) and rv.value)
             if kw(it, "key") is not None:
                 ok = False
-        elif name in ("list", "tuple", "iter") and len(it.args) == 1:
+        elif name in ("list", "tuple", "iter", "enumerate") and it.args:
             pass
         else:
             ok = False
@@ -303,6 +303,45 @@ def _arg_binding(call, params):
     return out
 
 
+class CompLoop:
+    """A comprehension / generator expression over the deque, seen as a loop.  `first_match`: it is consumed by
+    next(..), i.e. the walk leaves at the first element that passes the filter (an early exit on `ifs`)."""
+
+    def __init__(self, comp_node, gen, first_match):
+        self.node, self.gen, self.first_match = comp_node, gen, first_match
+        self.iter, self.ifs, self.elt = gen.iter, gen.ifs, getattr(comp_node, "elt", None)
+        self.target = gen.target
+        self.lineno = comp_node.lineno
+
+
+def _elem_and_index(target, it):
+    """(element name, enumerate index name or None) of a loop target over `it`."""
+    enum = False
+    x = it
+    while isinstance(x, ast.Call) and x.args:
+        if ap(x.func) == "enumerate":
+            enum = True
+        x = x.args[0]
+    if enum and isinstance(target, ast.Tuple) and len(target.elts) == 2 and all(isinstance(e, ast.Name) for e in target.elts):
+        return target.elts[1].id, target.elts[0].id
+    if not enum and isinstance(target, ast.Name):
+        return target.id, None
+    return None, None
+
+
+def _comp_loops(fn_node, base_path):
+    out = []
+    for n in walk(fn_node, into_defs=True):
+        if isinstance(n, (ast.GeneratorExp, ast.ListComp, ast.SetComp)) and len(n.generators) == 1:
+            over, desc, ok = _loop_over(n.generators[0], base_path)
+            if over:
+                from ..core import parent
+                p = parent(n)
+                first = isinstance(p, ast.Call) and ap(p.func) == "next" and p.args and p.args[0] is n
+                out.append((CompLoop(n, n.generators[0], first), desc, ok))
+    return out
+
+
 def _inj_loops(repo, ci):
     """Loops over the tracker's injections deque: [(tracker method, loop, descending, understood, function holding
     the loop, call in the method that reaches it or None)].  A loop moved into a helper that receives
@@ -316,6 +355,10 @@ def _inj_loops(repo, ci):
                 over, desc, ok = _loop_over(n, DEQ)
                 if over:
                     out.append((f, n, desc, ok, f, None))
+            elif isinstance(n, (ast.GeneratorExp, ast.ListComp, ast.SetComp)):
+                for cl, desc, ok in _comp_loops(n, DEQ):
+                    if cl.node is n:
+                        out.append((f, cl, desc, ok, f, None))
             elif isinstance(n, ast.Call):
                 g, params = _callee_of(repo, f, n)
                 if g is None:
@@ -363,8 +406,11 @@ def r2_early_exit(ctx, rule_id="C04.R2"):
     for _owner, loop, desc, understood, f, _call in loops:
         if not understood:
             raise AnalysisError(f"{rule_id}: {f.qual}: iteration order of `{norm(loop.iter)}` not understood")
-        elem = loop.target.id if isinstance(loop.target, ast.Name) else None
-        ctx.require(elem is not None, f"{rule_id}: {f.qual}: loop target is not a simple name")
+        elem, idx = _elem_and_index(loop.target, loop.iter)
+        ctx.require(elem is not None, f"{rule_id}: {f.qual}: loop target is not a simple name / enumerate pair")
+        if isinstance(loop, CompLoop):
+            _r2_comp(ctx, rule_id, f, loop, desc, elem, idx)
+            continue
         counting = any(isinstance(n, ast.AugAssign) for n in walk(loop))
         exits = []
         for n in walk(loop):
@@ -418,6 +464,38 @@ def r2_early_exit(ctx, rule_id="C04.R2"):
                    f"{direction} walk over an ascending deque may stop only once the element is too "
                    f"{'small' if desc else 'large'}; this exit fires on {sorted(kinds) or 'an order-unrelated test'}, so "
                    f"{'older' if desc else 'newer'} injections that still count are skipped")
+
+
+def _r2_comp(ctx, rule_id, f, loop, desc, elem, idx):
+    """Early-exit / running-operand obligations for a comprehension over the deque."""
+    from ..core import atoms
+    direction = "newest-first" if desc else "oldest-first"
+    base_key = f"{f.qual}: for {elem} in {norm(loop.iter)}"
+    # names defined inside the comprehension from the enumerate index move up with the walk
+    moving = {idx} if idx else set()
+    for n in ast.walk(loop.node):
+        if isinstance(n, ast.NamedExpr) and isinstance(n.target, ast.Name) and \
+                any(isinstance(x, ast.Name) and x.id in moving for x in ast.walk(n.value)):
+            moving.add(n.target.id)
+    facts_ = [a for t in loop.ifs for a in atoms(t, True)]
+    for e, _pol in facts_:
+        if isinstance(e, ast.Compare) and len(e.ops) == 1 and isinstance(e.ops[0], (ast.Lt, ast.LtE, ast.Gt, ast.GtE)):
+            sides = [e.left, e.comparators[0]]
+            if not any(isinstance(x, ast.Name) and x.id == elem for x in sides):
+                continue
+            other = sides[1] if isinstance(sides[0], ast.Name) and sides[0].id == elem else sides[0]
+            if any(isinstance(x, ast.Name) and x.id in moving for x in ast.walk(other)):
+                ctx.ob(rule_id, f"{base_key}: `{norm(e)}` compares with a running value that moves with the walk", not desc,
+                       ctx.w(f, loop), f"the compared value grows with the position in a {direction} walk")
+    if not loop.first_match:
+        ctx.ob(rule_id, f"{base_key}: visits every tracked injection", True, ctx.w(f, loop), "no early exit")
+        return
+    kinds = {_elem_cmp(e, pol, elem) for e, pol in facts_} - {None}
+    need = "small" if desc else "big"
+    ctx.ob(rule_id, f"{base_key}: early exit `{norm(ast.BoolOp(op=ast.And(), values=list(loop.ifs)) if len(loop.ifs) > 1 else loop.ifs[0]) if loop.ifs else 'first element'}` justified by the walk order",
+           need in kinds, ctx.w(f, loop),
+           f"{direction} walk over an ascending deque may stop only once the element is too {'small' if desc else 'large'}; "
+           f"next() leaves at the first element passing {sorted(kinds) or 'an order-unrelated test'}")
 
 
 def _guard_of(x, loop):
@@ -509,6 +587,24 @@ def _shift_stmts(repo, f):
     return out
 
 
+def _depends_on(f, names):
+    """names plus every local they are (transitively) computed from in f (walrus targets included)."""
+    deps = {}
+    for st in stores(f.node, into_defs=True):
+        if st.value is not None and "." not in st.path and "[" not in st.path:
+            deps.setdefault(st.path, set()).update(x.id for x in ast.walk(st.value) if isinstance(x, ast.Name))
+    for n in ast.walk(f.node):
+        if isinstance(n, ast.NamedExpr) and isinstance(n.target, ast.Name):
+            deps.setdefault(n.target.id, set()).update(x.id for x in ast.walk(n.value) if isinstance(x, ast.Name))
+    out, work = set(names), list(names)
+    while work:
+        for d in deps.get(work.pop(), ()):
+            if d not in out:
+                out.add(d)
+                work.append(d)
+    return out
+
+
 def _call_coeff_into_result(repo, f, call):
     """Coefficient with which the value of `call` (a helper call in f) enters what f returns."""
     sym = ap(call)
@@ -591,7 +687,7 @@ def r3_symmetry(ctx, rule_id="C04.R3"):
                    path=cfg.describe_path(wit) if wit else None)
             # the shifted local is what is returned
             vars_ = {v for _n, v, _c in shifts}
-            mentioned = {x.id for x in ast.walk(r.ast) if isinstance(x, ast.Name)}
+            mentioned = _depends_on(f, {x.id for x in ast.walk(r.ast) if isinstance(x, ast.Name)})
             ctx.ob(rule_id, f"{f.qual}: `{norm(r.ast)}` returns the shifted ID", is_shift(r) or bool(vars_ & mentioned) or not shifts,
                    ctx.w(f, r.ast), f"returned expression does not involve {sorted(vars_)}")
         for s in shift_nodes:
@@ -601,16 +697,32 @@ def r3_symmetry(ctx, rule_id="C04.R3"):
         # per-injection step: a constant step inside the loop, related to the returned ID either directly
         # (`new_id -= 1`) or through a counter that is combined in afterwards (`shift += 1` ... `id - shift`)
         steps = []
+        comp_steps = []
         for lf_, loop, desc, _ok, g, call in _inj_loops(repo, ci):
             if lf_ != f:
                 continue
             outer = 1 if call is None else _call_coeff_into_result(repo, f, call)
+            if isinstance(loop, CompLoop):
+                # the step is the enumerate index: the produced value must be linear in it
+                _elem, idx = _elem_and_index(loop.target, loop.iter)
+                elt = loop.elt
+                if idx is not None and isinstance(elt, ast.Name):
+                    defs = [x.value for x in ast.walk(loop.node) if isinstance(x, ast.NamedExpr) and isinstance(x.target, ast.Name)
+                            and x.target.id == elt.id]
+                    elt = defs[0] if len(defs) == 1 else elt
+                lf = _lin0(repo, g, elt) if (idx is not None and elt is not None) else None
+                if lf is not None and lf.get(idx, 0) != 0 and outer is not None:
+                    comp_steps.append((loop, lf.get(idx) * outer, g))
+                continue
             for n in walk(loop):
                 if isinstance(n, ast.AugAssign) and isinstance(n.target, ast.Name) and isinstance(n.op, (ast.Add, ast.Sub)):
                     coeff = _coeff_into_result(repo, g, n.target.id)
                     if coeff is not None and outer is not None:
                         steps.append((n, coeff * outer, g))
-        ctx.ob(rule_id, f"{f.qual}: steps once per counted injection", len(steps) >= 1, f.where,
+        for loop, k, g in comp_steps:
+            ctx.ob(rule_id, f"{f.qual}: `{norm(loop.elt)}` over the position moves the ID by {want:+d} per injection", k == want,
+                   ctx.w(g, loop), f"effective step per skipped injection is {k}")
+        ctx.ob(rule_id, f"{f.qual}: steps once per counted injection", len(steps) + len(comp_steps) >= 1, f.where,
                "no per-injection step feeding the returned ID inside a loop over injections")
         for n, coeff, g in steps:
             lf = _nz(_lin(repo, g, n.value))
